@@ -17,9 +17,9 @@ import (
 
 func init() {
 	Registry["C10"] = Spec{
-		Fn:    c10,
-		Level: "fault_enumeration",
-		Rule: "scenarios of C04 plus the handshake; for every gate of a fault-free pilot run (before/after each client write, before each server packet, inside each callback, at each internal hook point) the caller's context is cancelled (or its deadline made to pass) at that gate; additionally the server stalls after k bytes of each packet (mid-packet silence, k sampled over the stream) and the context is cancelled during the stall; a context already done before the call; a peer that stops reading (blocked write); default and short read timeouts. Oracle: the call returns (stuck-state evidence: reader blocked with no deadline armed while the context is done), the error matches the context's error, a Cancel packet - if written - is the single byte 03 in its own Write call, the connection is closed exactly once, at most one further server packet is begun after the cancel instant, no library goroutine outlives the call. Non-trivial = the cancellation took effect before the scenario would have completed; distinct = (scenario, gate, action)",
+		Fn:          c10,
+		Level:       "fault_enumeration",
+		Rule:        "scenarios of C04 plus the handshake; for every gate of a fault-free pilot run (before/after each client write, before each server packet, inside each callback, at each internal hook point) the caller's context is cancelled (or its deadline made to pass) at that gate; additionally the server stalls after k bytes of each packet (mid-packet silence, k sampled over the stream) and the context is cancelled during the stall; a context already done before the call; a peer that stops reading (blocked write); default and short read timeouts. Oracle: the call returns (stuck-state evidence: reader blocked with no deadline armed while the context is done), the error matches the context's error, a Cancel packet - if written - is the single byte 03 in its own Write call, the connection is closed exactly once, at most one further server packet is begun after the cancel instant, no library goroutine outlives the call. Non-trivial = the cancellation took effect before the scenario would have completed; distinct = (scenario, gate, action)",
 		Assumptions: []string{"prompt = returns within the read timeout (100 ms here) plus a generous wall-clock watchdog (10 s) whose firing alone is inconclusive; it becomes a violation only together with stuck-state evidence (context done, reader blocked without deadline, nothing queued)"},
 		MinDistinct: 200,
 	}
